@@ -36,6 +36,39 @@ fn binary_ready<T: Dom>(op: usize) {
         T::oblige(&format!("{} t={t}: reports a value iff both children do", BINOPS[op]), Cond::Bool(v.last().is_some() == (a[t].is_some() && b[t].is_some())));
     }
 }
+/// children whose outputs repeat (period 2 against period 3, over two variables each) and drop out on some steps, over a long run:
+/// a combinator that caches on "operand unchanged", keeps a stale operand across a not-ready step, or resynchronises
+/// every 2^m updates gives a different term somewhere in the run
+fn binary_repeating<T: Dom>(op: usize, k: usize) {
+    let av = [T::input("a0"), T::input("a1")];
+    let bv = [T::input("b0"), T::input("b1"), T::input("b2")];
+    if op == 3 { for q in bv { T::assume(Cond::Ne(q, T::zero())); } }
+    let a: Vec<Option<T>> = (0..k).map(|t| if t % 7 == 5 { None } else { Some(av[(t / 2) % 2]) }).collect();
+    let b: Vec<Option<T>> = (0..k).map(|t| if t % 11 == 3 { None } else { Some(bv[(t / 3) % 3]) }).collect();
+    let mut v = binop::<T>(op, DynV::new(Script::new(a.clone())), DynV::new(Script::new(b.clone())));
+    for t in 0..k {
+        v.update(T::input(&format!("x{}", t % 4)));
+        let want = match (a[t], b[t]) { (Some(p), Some(q)) => Some(match op { 0 => p + q, 1 => p - q, 2 => p * q, _ => p / q }), _ => None };
+        T::oblige(&format!("{} t={t}: out is a_t {} b_t of the children's current outputs, None iff one of them is (first call)", BINOPS[op], ["+", "-", "*", "/"][op]), opt_ident(v.last(), want));
+        T::oblige(&format!("{} t={t}: the same on a second call of last()", BINOPS[op]), opt_ident(v.last(), want));
+    }
+}
+/// clip over a long run whose child repeats values, equals the clip point on some steps and is not ready on others
+fn clip_repeating<T: Dom>(k: usize, gte: bool) {
+    let c = T::input("clip");
+    let sv = [T::input("v0"), T::input("v1"), c];
+    let s: Vec<Option<T>> = (0..k).map(|t| if t % 13 == 6 { None } else { Some(sv[(t / 2) % 3]) }).collect();
+    let mut v: DynV<T> = if gte { DynV::new(GTE::new(Script::new(s.clone()), c)) } else { DynV::new(LTE::new(Script::new(s.clone()), c)) };
+    let nm = if gte { "GTE" } else { "LTE" };
+    for t in 0..k {
+        v.update(T::input(&format!("x{}", t % 4)));
+        let Some(child) = s[t] else { continue };   // what a clip reports while its child is not ready is not stated by C14
+        let Some(o) = v.last() else { T::oblige(&format!("{nm} t={t}: has a value"), Cond::Bool(false)); continue };
+        let want = if gte { Cond::Or(vec![Cond::And(vec![le(c, child), Cond::Ident(o, child)]), Cond::And(vec![lt(child, c), Cond::Ident(o, c)])]) }
+                   else { Cond::Or(vec![Cond::And(vec![le(child, c), Cond::Ident(o, child)]), Cond::And(vec![lt(c, child), Cond::Ident(o, c)])]) };
+        T::oblige(&format!("{nm} t={t}: out == {}(child_t, clip) on a repeating child", if gte { "max" } else { "min" }), want);
+    }
+}
 fn clip<T: Dom>(k: usize, gte: bool) {
     let c = T::input("clip");
     let s: Vec<Option<T>> = (0..k).map(|t| Some(T::input(&format!("v{t}")))).collect();
@@ -88,6 +121,10 @@ pub fn units(tier: Tier, _seed: u64) -> Vec<Unit> {
     let k = if tier == Tier::Quick { 4usize } else { 8usize };
     let mut u = vec![];
     for op in 0..4usize { u.push(unit!(format!("C14/{}/k={k}", BINOPS[op]), binary(op, k))); u.push(unit!(format!("C14/{}-readiness", BINOPS[op]), binary_ready(op))); }
+    let kl = if tier == Tier::Quick { 300usize } else { 4200usize };
+    for op in 0..4usize { u.push(unit!(format!("C14/{}/repeating-children/k={kl}", BINOPS[op]), binary_repeating(op, kl))); }
+    u.push(unit!(format!("C14/GTE/repeating-child/k={kl}"), clip_repeating(kl, true)));
+    u.push(unit!(format!("C14/LTE/repeating-child/k={kl}"), clip_repeating(kl, false)));
     u.push(unit!(format!("C14/GTE/k={k}"), clip(k, true)));
     u.push(unit!(format!("C14/LTE/k={k}"), clip(k, false)));
     u.push(unit!(format!("C14/Tanh/k={k}"), tanh(k)));
@@ -98,7 +135,7 @@ pub fn units(tier: Tier, _seed: u64) -> Vec<Unit> {
 pub fn meta() -> Meta {
     Meta {
         functions: vec!["Add", "Subtract", "Multiply", "Divide", "GTE", "LTE", "Tanh", "Echo", "Constant — each ::{new,update,last}"],
-        bounds: "k = 4 (quick) / 8 (thorough) steps; children are scripted views emitting a fresh solver variable at every step (so any dependence on an earlier child value, a swapped or cached operand gives a different term); clip point and constant are solver variables; divisor assumed non-zero",
+        bounds: "k = 4 (quick) / 8 (thorough) steps; children are scripted views emitting a fresh solver variable at every step (so any dependence on an earlier child value, a swapped or cached operand gives a different term); clip point and constant are solver variables; divisor assumed non-zero; plus runs of 300 (quick) / 4200 (thorough) steps over children whose outputs repeat with periods 4 and 9 over 2 and 3 solver variables, drop out every 7th / 11th step, and (clips) equal the clip point on a third of the steps, last() called twice per step",
         outside: vec!["children other than scripted leaves (composition with real views is C01)"],
         assumptions: vec!["term identity: two outputs with the same term are bit-identical under every deterministic interpretation of + - * / tanh (reals, f32, f64); engine K repeats the arithmetic combinators on f64 bits (kani/)"],
     }
